@@ -214,6 +214,9 @@ def main_nodds(payload):
             return dict((build(k), build(v)) for k, v in e[1])
         if t == "path":
             return PurePosixPath(bytes.fromhex(e[1]).decode())
+        if t == "ppath":
+            import pathlib
+            return pathlib.Path(bytes.fromhex(e[1]).decode())
         raise ValueError(t)
     logmod = importlib.import_module("vlogmod")
     out = []
